@@ -59,7 +59,18 @@ def _preimport():
     import clikit.ui.layout, clikit.ui.style, clikit.ui.alignment, clikit.handler.callback_handler  # noqa
     import clikit.args.default_args_parser, clikit.io.input_stream, clikit.io.output_stream, clikit.ui.rectangle  # noqa
     import crashtest.inspector, crashtest.frame_collection, textwrap, tokenize  # noqa
+    import crashtest.solution_providers.solution_provider_repository  # noqa
     from props import _c17_fixtures  # noqa
+    # warm the interpreter-level caches of the standard library (inspect's module-by-file map, linecache): no clikit state
+    import inspect, linecache
+    try:
+        raise ValueError("warm-up")
+    except ValueError as e:
+        inspect.getframeinfo(e.__traceback__)
+    for m in list(sys.modules.values()):
+        f = getattr(m, "__file__", None) or ""
+        if f.endswith(".py") and ("clikit" in f or "crashtest" in f or "_c17_fixtures" in f):
+            linecache.getlines(f)
 
 
 # ------------------------------------------------------------------------------------------------
@@ -232,6 +243,8 @@ LINES = {
     "raise-vvv": ("bad -vvv", True),
     "sub": ("top sub y", True),
     "raise-vvv-ascii": ("bad -vvv", False),
+    "dflt-too-many": ("dflt a b", True),            # strict default sub-command: one argument too many
+    "help-dflt-too-many": ("help dflt a b", True),  # help request whose arguments do not parse strictly
     # spares: VERIF_SEED rotates exactly one of them into the full alphabet
     "valid-ansi": ("foo a --ansi", True),
     "help-top": ("help top", True),
@@ -241,9 +254,9 @@ LINES = {
     "top": ("top", True),
 }
 CORE = ["valid", "bad-option", "too-many", "help", "help-foo", "help-len", "foo-h", "version", "unknown",
-        "len-surplus", "raise-vvv", "sub", "raise-vvv-ascii"]
-CORE_REDUCED = ["valid", "too-many", "help-len", "foo-h", "version", "len-surplus", "raise-vvv"]
-REDUCED_ROT = ["bad-option", "help-foo", "unknown", "sub", "raise-vvv-ascii", "help"]
+        "len-surplus", "raise-vvv", "sub", "raise-vvv-ascii", "dflt-too-many", "help-dflt-too-many"]
+CORE_REDUCED = ["valid", "help-len", "len-surplus", "help-dflt-too-many", "dflt-too-many", "version", "raise-vvv"]
+REDUCED_ROT = ["too-many", "foo-h", "bad-option", "help-foo", "unknown", "sub", "raise-vvv-ascii", "help"]
 SPARES = ["valid-ansi", "help-top", "top-h", "len-h", "valid-quiet", "top"]
 MODES = ["default", "reused-args", "shared-parser"]
 
@@ -277,6 +290,13 @@ def build_app(mode):
             s.set_description("The sub-command")
             s.add_argument("x", Argument.OPTIONAL, "An argument")
             s.set_handler(handler("top sub", 3))
+    with c.command("dflt") as f:  # has a default sub-command (strict, one argument)
+        f.set_description("A command with a default sub-command")
+        with f.sub_command("list") as s:
+            s.default()
+            s.set_description("The default sub-command")
+            s.add_argument("name", Argument.OPTIONAL, "A name")
+            s.set_handler(handler("dflt list"))
     with c.command("bad") as f:  # handler raises at any verbosity
         f.set_description("A command whose handler raises")
         f.set_handler(handler("bad", raises=True))
@@ -499,6 +519,7 @@ FACTORIES.update({
     "help/command/top": ("CommandHelp", IO_BASIC),
     "help/command/help": ("CommandHelp", IO_BASIC),
     "help/command/top sub": ("CommandHelp", IO_BASIC),
+    "help/command/dflt": ("CommandHelp", IO_BASIC),
     "trace/full": ("ExceptionTrace", IO_ALL),
     "trace/recursive": ("ExceptionTrace", IO_ALL),
     "trace/simple": ("ExceptionTrace", ["plain", "ansi", "ascii-debug"]),
@@ -759,7 +780,10 @@ def layout_batch(layout, name):
                 with layout.block():
                     layout.add(el)
     io = make_io("plain")
-    layout.render(io)
+    try:
+        layout.render(io)
+    except Exception as e:
+        return "crash:" + report.exc_site(e)
     return io.fetch_output()
 
 
@@ -772,6 +796,8 @@ def run_layout(seq):
 
 
 def layout_diffclass(ref, got):
+    if got.startswith("crash:"):
+        return got
     a, b = ref.split("\n"), got.split("\n")
     if [x.lstrip() for x in a] == [x.lstrip() for x in b]:
         return "indentation"
@@ -854,6 +880,8 @@ def style_scenarios():
             b += [["build", n], ["render", i]]
         return [a, b + [["render", i] for i in range(k)]]
 
+    for n in STYLES:  # one style alone, its table rendered three times
+        fresh.append(("create", [["build", n], ["render", 0], ["render", 0], ["render", 0]], None, [n]))
     for order in itertools.permutations(STYLES, 4):
         for steps in two_schedules(order):
             fresh.append(("create", steps, None, list(order)))
@@ -881,11 +909,12 @@ def style_scenarios():
 
 
 def style_refs():
+    """the table of each style in a brand-new interpreter in which only that style was ever built"""
     refs = {}
     for n in STYLES:
-        a = run_style_subprocess([["build", n], ["render", 0], ["render", 0]])
-        if a[0][1] == "crash" or a[0][2] != a[1][2]:
-            raise RuntimeError("engine error / solo style %s unstable: %r" % (n, a))
+        a = run_style_subprocess([["build", n], ["render", 0]])
+        if a[0][1] == "crash":
+            raise RuntimeError("engine error: solo style %s cannot be rendered: %r" % (n, a))
         if run_style_forked([["build", n], ["render", 0]])[0][2] != a[0][2]:
             raise RuntimeError("engine error: forked child and fresh sub-process disagree on the solo %s table" % n)
         refs[n] = a[0][2]
@@ -925,6 +954,8 @@ def explore_styles(rep):
         kind, steps, twin, label = sc
         if victim == "crash":
             sig = "style-crash:" + str(got)[:60]
+        elif kind == "create" and sum(1 for st in steps if st[0] == "build") == 1:
+            sig = "style-rerender:%s" % victim
         elif kind == "create":
             sig = "style-creation:%s" % victim
         else:
